@@ -73,6 +73,7 @@ class Gen:
         self.nchan = 0
         self.t = L.T0
         self.steps = []
+        self.huge = False   # a deadline timer near 2^63 / 2^64 ms is in the heap: no blind `wake` steps
 
     def chan(self):
         self.nchan += 1
@@ -89,6 +90,8 @@ class Gen:
         to = rng.choice(TIMEOUTS)
         if to is not None:
             c["timeout"] = to
+            if to >= 2 ** 62:
+                self.huge = True
         return c
 
     def call_stop(self):
@@ -130,7 +133,7 @@ class Gen:
     def step(self, kind=None):
         rng = self.rng
         r = rng.random()
-        if r < 0.12 and self.steps:
+        if r < 0.12 and self.steps and not self.huge:
             st = {"t": "wake", "d": 0}
         elif r < 0.22 and self.steps:
             self.t += rng.choice([1000, 3000, 8000, 20000, 130000])
@@ -242,7 +245,7 @@ def fixed_histories():
 
 
 def generate(rng, tier):
-    n = 420 if tier == "quick" else 6000
+    n = 1500 if tier == "quick" else 12000
     cases = [Case(L.dumps(h), "fixed") for h in fixed_histories()]
     for i in range(n):
         g = Gen(rng, "g%d" % i)
